@@ -240,13 +240,20 @@ EXTRA2 = {
 }
 
 
+EXTRA4 = {
+    "C02": " RSTACK and ERROR frames with each of the 256 reset / error codes (named in bellows' enumeration or not) from two expected-number states, whole and bytewise: the notification passed up carries the code on the wire.",
+    "C07": " Leaf codec of every integer enumeration reachable from a schema (39 types): every value of the 8- and 16-bit ranges, boundary values of wider ones, keeps its numeric value through decode and encodes back to the same bytes.",
+    "C14": " getNetworkKeyInfo (v13+) is packed by hand from the EZSP reference layout with an alternate-key sequence byte that differs from the current key's.",
+}
+
+
 def build() -> dict:
     checks = []
     for pid in ALL:
         if pid not in CHECKS:
             continue
         cat, tech, text, note, ref = CHECKS[pid]
-        text = text + EXTRA.get(pid, "") + EXTRA2.get(pid, "") + EXTRA3.get(pid, "")
+        text = text + EXTRA.get(pid, "") + EXTRA2.get(pid, "") + EXTRA3.get(pid, "") + EXTRA4.get(pid, "")
         checks.append({
             "property_id": pid,
             "quick_cmd": f"./check {pid} --tier quick",
